@@ -15,7 +15,7 @@ func init() {
 	register(&Property{
 		ID:          "C20",
 		Engines:     []string{"cfg", "typestate"},
-		Explanation: "Allocator contracts: contents and non-aliasing over all operation sequences are value-level and not decided. Decided: every return of each Malloc yields a slice whose length is the size argument (O1); inside the allocators a block is read before it is released and never returned or used afterwards, and Append/Realloc copy the old contents to offset 0 and the new bytes to offset len(old) (O2); pool hygiene — a pooling Free puts back only buffers of positive capacity within its bounds, the pooled allocator re-slices a pooled buffer only after growing it to the size, the aligned allocator indexes its class table only for sizes within the table and each class allocates exactly its class size (O3); no allocator keeps the pointer it returns anywhere but the sync.Pool on Free (O4). The aligned allocator appends only in place (O5). The aligned Free filter pools only exact class sizes, evaluated over all capacities (O6).",
+		Explanation: "Allocator contracts: contents and non-aliasing over all operation sequences are value-level and not decided. Decided: every return of each Malloc yields a slice whose length is the size argument (O1); inside the allocators a block is read before it is released and never returned or used afterwards, and Append/Realloc copy the old contents to offset 0 and the new bytes to offset len(old) (O2); pool hygiene — a pooling Free puts back only buffers of positive capacity within its bounds, the pooled allocator re-slices a pooled buffer only after growing it to the size, the aligned allocator indexes its class table only for sizes within the table and each class allocates exactly its class size (O3); no allocator keeps the pointer it returns anywhere but the sync.Pool on Free (O4). The aligned allocator appends only in place (O5). The aligned Free filter pools only exact class sizes, evaluated over all capacities (O6). Realloc returns the requested length on every path (O1).",
 		NotCovered:  "content preservation and non-overlap for all sequences and sizes; that every capacity the aligned allocator hands out is a class size (an inductive, value-level invariant); concurrent use (delegated to sync.Pool); the TraceDebugger wrapper, which records pointers by design",
 		Run:         runC20,
 	})
